@@ -544,3 +544,13 @@ def r7(ctx: Ctx) -> None:
         ctx.site(f.where, "touches == the bounding boxes overlap or abut within the distance tolerance, on both axes")
     if wanted(ctx, "touches") and c != (("ret", want),):
         ctx.report(f.where, "touches-definition " + "; ".join(show(x) for x in c)[:200], "touches is not 'll <= other.ur + eps' for both operands on both axes", lineno=f.node.lineno)
+
+
+@rule("C18", "R9.halving-to-a-count", "SHARED(C11)",
+      "split_rectangles only redistributes what split() returns: both halves of every split reach a work list / the result, "
+      "every popped rectangle is split or kept, no rectangle is built or edited there (the C11 rules evaluated for the halving "
+      "driver)", floor=4)
+def shared_split_rectangles(ctx: Ctx) -> None:
+    from . import C11 as _c11
+    from .common import support
+    support(ctx, [_c11.r2, _c11.r3], {"split_rectangles"})
